@@ -705,8 +705,8 @@ class CStateMachineGenerator(CGenerator):
                        hasSpecificTag(l, __TAG_NEXTSTATENAME__) or hasSpecificTag(l, __TAG_NEXTSTATENAME_SMALL_CAMEL__) or hasSpecificTag(l, __TAG_NEXTSTATENAME_SNAKE__) or\
                        hasSpecificTag(l, __TAG_ACTIONNAME__) or hasSpecificTag(l, __TAG_ACTIONNAME_SMALL_CAMEL__) or hasSpecificTag(l, __TAG_ACTIONNAME_SNAKE__) or\
                        hasSpecificTag(l, __TAG_STATENAME_IF_NEXTSTATE__) or hasSpecificTag(l, __TAG_STATENAME_IF_NEXTSTATE_SMALL_CAMEL__) or hasSpecificTag(l, __TAG_STATENAME_IF_NEXTSTATE_SNAKE__):
-                        line_member = extractDefaultAndTag(l)
-                        if line_member[1]:  # alternative text is embedded in the tag.
+                        if hasDefault(l):  # alternative text is embedded in the tag.
+                            line_member = extractDefaultAndTag(l)
                             whitespace = len(l) - len(l.lstrip())
                             output.append(whitespace * ' ' + line_member[1] + '\n')
                     elif l.find(__TAG_GUARDNAME_SMALL_CAMEL__) == -1 and l.find(__TAG_GUARDNAME__) == -1 and l.find(__TAG_GUARDNAME_SNAKE__) == -1 and\
